@@ -185,6 +185,10 @@ def r17_4(ctx):
 def r17_5(ctx):
     from .C08 import r8_4
     r8_4(ctx)
+    from .C18 import r18_5
+    r18_5(ctx)
+    from .C09 import r9_4
+    r9_4(ctx)
 
 
 def run(ctx):
